@@ -30,7 +30,7 @@ RULE = (
     "reports; (4) asset X alone (-a X, or a config listing only X) gives the same X sheets, the same X rows in shared sheets "
     "and the same X balances / costs as X among others; in-process: one engine object reused for the assets in different "
     "orders gives each asset the trace of a fresh engine; (5) two runs in one interpreter (another input first, then this one) give "
-    "the second run the reports of a fresh process; in-process relation 3 at volume: row numbers permuted within the "
+    "the second run the reports of a fresh process; (6) relation 4 for tax_report_jp.ods (year sheets of X alone vs among others); in-process relation 3 at volume: row numbers permuted within the "
     "tables of single-asset histories whose timestamps are distinct but down to 1 microsecond apart (all methods, schedules) "
     "give the same fractions through the unique ids. Non-trivial = input with >= 2 assets whose sheets reuse row numbers; "
     "distinct = hash of (input, relation)"
@@ -41,8 +41,8 @@ ASSUMPTIONS = [
     "reports are compared on cell values and formula text as read back by ezodf, not on bytes (ODS files embed nothing time-dependent that RP2 controls, but zip metadata may differ)",
 ]
 SETTINGS: Dict[str, Dict[str, Any]] = {
-    "quick": {"cases": 16, "inproc_cases": 300, "inproc_perm_cases": 1600, "budget_s": 75, "minimums": {"relation_1": 12, "relation_2": 12, "relation_3": 12, "relation_4": 12, "relation_5": 12, "inproc_engine_reuse": 200, "inproc_row_permutation": 1000, "inproc_row_permutation_with_sub_second_lots": 200, "nontrivial": 12}},
-    "thorough": {"cases": 200, "inproc_cases": 8000, "inproc_perm_cases": 60000, "budget_s": 600, "minimums": {"relation_1": 100, "relation_2": 100, "relation_3": 100, "relation_4": 100, "relation_5": 100, "inproc_engine_reuse": 5000, "inproc_row_permutation": 30000, "inproc_row_permutation_with_sub_second_lots": 6000, "nontrivial": 100}},
+    "quick": {"cases": 16, "inproc_cases": 300, "inproc_perm_cases": 1600, "budget_s": 75, "minimums": {"relation_1": 12, "relation_2": 12, "relation_3": 12, "relation_4": 12, "relation_5": 12, "relation_6": 12, "inproc_engine_reuse": 200, "inproc_row_permutation": 1000, "inproc_row_permutation_with_sub_second_lots": 200, "nontrivial": 12}},
+    "thorough": {"cases": 200, "inproc_cases": 8000, "inproc_perm_cases": 60000, "budget_s": 600, "minimums": {"relation_1": 100, "relation_2": 100, "relation_3": 100, "relation_4": 100, "relation_5": 100, "relation_6": 100, "inproc_engine_reuse": 5000, "inproc_row_permutation": 30000, "inproc_row_permutation_with_sub_second_lots": 6000, "nontrivial": 100}},
 }
 REPORTS = COUNTRY_REPORTS["us"]
 
@@ -93,7 +93,7 @@ def make_case(rng: random.Random) -> Dict[str, Any]:
     return {"hists": hists, "other": other, "method": rng.choice(METHODS), "perm_seed": rng.randint(0, 10**9)}
 
 
-def _one(ctx: Any, case: Dict[str, Any], name: str, relations: Tuple[int, ...] = (1, 2, 3, 4, 5)) -> None:
+def _one(ctx: Any, case: Dict[str, Any], name: str, relations: Tuple[int, ...] = (1, 2, 3, 4, 5, 6)) -> None:
     ws = Workspace(ctx.scratch, name)
     try:
         hists = copy.deepcopy(case["hists"])
@@ -206,6 +206,32 @@ def _one(ctx: Any, case: Dict[str, Any], name: str, relations: Tuple[int, ...] =
                     ctx.tag("tag_relation5_unobservable", (proc.stdout[-80:] + proc.stderr[-120:]).strip())
             finally:
                 ws_other.cleanup()
+
+        if 6 in relations:
+            # relation 4 for the other country-specific generator: each asset's year sheets of tax_report_jp.ods (rows and
+            # cross-sheet formulas) are the same whether the asset is processed alone (-a X) or among the others
+            jp_args = ["-g", "en"]
+            together = ws.run("jp", jp_args, audit=False)
+            ctx.count("executions")
+            if together.exit == 0 and together.report("tax_report_jp"):
+                sheets_together = _matrices(together.report("tax_report_jp"))
+                for asset in sorted(hists):
+                    alone = ws.run("jp", jp_args + ["-a", asset], audit=False)
+                    ctx.count("executions")
+                    if alone.exit != 0 or not alone.report("tax_report_jp"):
+                        ctx.violation("determinism.asset-alone-fails", {"asset": asset, "country": "jp", "stderr": alone.stderr[-200:]}, dict(case, relation=6))
+                        continue
+                    sheets_alone = _matrices(alone.report("tax_report_jp"))
+                    mine = {n: m for n, m in sheets_together.items() if n.startswith(asset + "_")}
+                    mine_alone = {n: m for n, m in sheets_alone.items() if n.startswith(asset + "_")}
+                    if mine != mine_alone:
+                        name = next((n for n in sorted(set(mine) | set(mine_alone)) if mine.get(n) != mine_alone.get(n)), "")
+                        a_rows, b_rows = mine_alone.get(name) or [], mine.get(name) or []
+                        i = next((k for k, (x, y) in enumerate(zip(a_rows, b_rows)) if x != y), min(len(a_rows), len(b_rows)))
+                        ctx.violation("determinism.jp-asset-sheets-depend-on-other-assets", {"asset": asset, "sheet": name, "row": i + 1, "alone": str(a_rows[i : i + 1])[:240], "together": str(b_rows[i : i + 1])[:240]}, dict(case, relation=6))
+                ctx.count("relation_6")
+            else:
+                ctx.tag("tag_relation6_unobservable", together.stderr[-120:])
 
         if 4 in relations:
             for asset in sorted(hists):
@@ -373,7 +399,7 @@ def replay(ctx: Any, case: Dict[str, Any]) -> None:
                 if got != fresh[h["asset"]]:
                     ctx.violation("determinism.engine-state-leaks-across-assets", {"asset": h["asset"]}, case)
         return
-    _one(ctx, case, "replay", relations=(case["relation"],) if case.get("relation") else (1, 2, 3, 4, 5))
+    _one(ctx, case, "replay", relations=(case["relation"],) if case.get("relation") else (1, 2, 3, 4, 5, 6))
 
 
 def coverage(merged: Dict[str, Any], tier: str) -> Dict[str, Any]:
@@ -387,6 +413,7 @@ def coverage(merged: Dict[str, Any], tier: str) -> Dict[str, Any]:
             "inputs_checked_for_order_independence": c.get("relation_3", 0),
             "inputs_checked_for_asset_independence": c.get("relation_4", 0),
             "inputs_checked_as_second_run_in_one_interpreter": c.get("relation_5", 0),
+            "inputs_checked_for_asset_independence_of_the_jp_report": c.get("relation_6", 0),
             "in_process_engine_reuse_cases": c.get("inproc_engine_reuse", 0),
             "in_process_row_permutation_cases": c.get("inproc_row_permutation", 0),
             "of_which_with_lots_less_than_a_second_apart": c.get("inproc_row_permutation_with_sub_second_lots", 0),
